@@ -335,6 +335,129 @@ def _where(st: ast.AST) -> str:
     return "top level"
 
 
+class _Subst(ast.NodeTransformer):
+    def __init__(self, mapping):
+        self.mapping = mapping
+
+    def visit_Name(self, node):
+        if isinstance(node.ctx, ast.Load) and node.id in self.mapping:
+            return self.mapping[node.id]
+        return node
+
+
+def _expand(cx: Ctx, e: ast.expr, depth: int = 0) -> ast.expr:
+    """Inline calls of one-expression helpers of the module (``def f(a, b): return <expr>``), parameters substituted."""
+    import copy
+
+    if depth > 2:
+        return e
+    if isinstance(e, ast.Call) and isinstance(e.func, ast.Name) and not any(isinstance(a, ast.Starred) for a in e.args):
+        fn = cx.mod.functions.get(e.func.id)
+        if fn is not None and not fn.is_lambda and fn.cls is None and fn.parent_func is None:
+            body = [st for st in fn.node.body if not (isinstance(st, ast.Expr) and isinstance(st.value, ast.Constant))]
+            a = fn.node.args
+            if len(body) == 1 and isinstance(body[0], ast.Return) and body[0].value is not None and not a.vararg and not a.kwarg:
+                names = [x.arg for x in a.posonlyargs + a.args + a.kwonlyargs]
+                mapping = dict(zip(names, e.args))
+                for kw in e.keywords:
+                    if kw.arg in names:
+                        mapping[kw.arg] = kw.value
+                if set(mapping) == set(names):
+                    inl = _Subst(mapping).visit(copy.deepcopy(body[0].value))
+                    return _expand(cx, inl, depth + 1)
+        return e
+    if isinstance(e, ast.BoolOp):
+        return ast.BoolOp(op=e.op, values=[_expand(cx, v, depth) for v in e.values])
+    if isinstance(e, ast.UnaryOp) and isinstance(e.op, ast.Not):
+        return ast.UnaryOp(op=e.op, operand=_expand(cx, e.operand, depth))
+    return e
+
+
+def _dnf(cx: Ctx, e: ast.expr) -> list[list[ast.expr]]:
+    e = _expand(cx, e)
+    if isinstance(e, ast.BoolOp) and isinstance(e.op, ast.Or):
+        return [c for v in e.values for c in _dnf(cx, v)]
+    if isinstance(e, ast.BoolOp) and isinstance(e.op, ast.And):
+        out = [[]]
+        for v in e.values:
+            out = [a + b for a in out for b in _dnf(cx, v)]
+            if len(out) > 32:
+                raise Unsupported("gate condition too large")
+        return out
+    return [[e]]
+
+
+def _find_gate(cx: Ctx, pt_returns) -> dict:
+    from ..flow import facts
+
+    fi, cfg = cx.fi, cx.cfg
+    found = []
+    # form 1: all()/any() over a generator in an `if` test
+    for n in fi.local_nodes():
+        if not isinstance(n, ast.If):
+            continue
+        test = _expand(cx, n.test)
+        tests = test.values if isinstance(test, ast.BoolOp) and isinstance(test.op, ast.Or) else [test]
+        for t in tests:
+            q = t.operand if isinstance(t, ast.UnaryOp) and isinstance(t.op, ast.Not) else t
+            q = _expand(cx, q)
+            if isinstance(q, ast.Call) and isinstance(q.func, ast.Name) and q.func.id in ("all", "any") and q.args and isinstance(q.args[0], (ast.GeneratorExp, ast.ListComp)):
+                if not (isinstance(t, ast.UnaryOp) and n.body and n.body[-1] in pt_returns and not n.orelse):
+                    raise Unsupported(f"gate is not `if [... or] not all(...): return <pass-through>`: {short(n.test, 60)}")
+                gen = q.args[0]
+                if len(gen.generators) != 1 or gen.generators[0].ifs or not isinstance(gen.generators[0].target, ast.Name):
+                    raise Unsupported("gate generator filters or nests its iteration")
+                found.append({"node": n, "quant": q.func.id, "var": gen.generators[0].target.id, "root": unparse(gen.generators[0].iter), "fedge": ("F", n), "disjuncts": _dnf(cx, gen.elt), "form": "all(...) in an if test"})
+    # form 2: a loop over the elements that returns the pass-through unless an element is accepted
+    for n in fi.local_nodes():
+        if not (isinstance(n, ast.For) and isinstance(n.target, ast.Name) and not n.orelse):
+            continue
+        inner = [x for st in n.body for x in ast.walk(st) if isinstance(x, ast.stmt)]
+        rets = [x for x in inner if isinstance(x, ast.Return)]
+        if not rets or not all(r in pt_returns for r in rets):
+            continue
+        if not all(isinstance(x, (ast.If, ast.Continue, ast.Return, ast.Pass)) or (isinstance(x, ast.Expr) and isinstance(x.value, ast.Constant)) for x in inner):
+            raise Unsupported(f"loop with a pass-through return does more than test its elements: for {n.target.id} in {short(n.iter, 30)}")
+        # enumerate the paths of one iteration: accepted (back to the loop header) or rejected (pass-through return)
+        accepted: list[list[tuple[ast.expr, bool]]] = []
+        stack = [(("T", n), [])]
+        steps = 0
+        while stack:
+            node, fs = stack.pop()
+            steps += 1
+            if steps > 500:
+                raise Unsupported("gate loop has too many paths")
+            for nx in cfg.succ.get(node, []):
+                if nx is n:
+                    accepted.append(fs)
+                elif isinstance(nx, ast.Return):
+                    continue
+                elif isinstance(nx, tuple) and nx[0] in ("T", "F") and isinstance(nx[1], ast.If):
+                    stack.append((nx, fs + facts(nx[1].test, nx[0] == "T")))
+                elif isinstance(nx, ast.stmt) and nx in inner:
+                    stack.append((nx, fs))
+                else:
+                    raise Unsupported(f"gate loop leaves its body in an unexpected way ({type(nx).__name__})")
+        if not accepted:
+            raise Unsupported("gate loop accepts no element")
+        disjuncts = []
+        for fs in accepted:
+            pos = [t for t, pol in fs if pol]
+            if not pos:
+                raise Unsupported("gate loop accepts an element on a path with no positive test (only negated conditions)")
+            # negative facts only narrow the path (A or (not A and B) == A or B): the positive part over-approximates it
+            conj = [[]]
+            for t in pos:
+                conj = [a + b for a in conj for b in _dnf(cx, t)]
+            disjuncts.extend(conj)
+        found.append({"node": n, "quant": "all", "var": n.target.id, "root": unparse(n.iter), "fedge": ("F", n), "disjuncts": disjuncts, "form": "loop with continue / pass-through return"})
+    if not found:
+        raise Unsupported("no convertibility gate (`all(<convertible> for child in root)` or the equivalent loop) found in html_to_nodes")
+    if len(found) > 1:
+        raise Unsupported("more than one convertibility gate in html_to_nodes")
+    return found[0]
+
+
 def _split_add(e: ast.expr) -> list[ast.expr]:
     if isinstance(e, ast.BinOp) and isinstance(e.op, ast.Add):
         return _split_add(e.left) + _split_add(e.right)
@@ -428,36 +551,18 @@ def r1_pass_through(corpus: Corpus, rep: Report, tier: str):
             raise Unsupported(f"cannot decide whether `{short(arg, 50)}` is the source text")
     if not makers:
         raise Unsupported("no pass-through constructor (function building nodes.raw) is returned by html_to_nodes")
-    # (c) the gate
-    gate, quant = None, None
-    for n in fi.local_nodes():
-        if isinstance(n, ast.If):
-            for c in ast.walk(n.test):
-                if isinstance(c, ast.Call) and isinstance(c.func, ast.Name) and c.func.id in ("all", "any") and c.args and isinstance(c.args[0], ast.GeneratorExp):
-                    if gate is not None:
-                        raise Unsupported("more than one all()/any() gate in html_to_nodes")
-                    gate, quant = n, c
-    if gate is None:
-        raise Unsupported("no `all(<convertible> for child in root)` gate found in html_to_nodes")
-    gtests = gate.test.values if isinstance(gate.test, ast.BoolOp) and isinstance(gate.test.op, ast.Or) else [gate.test]
-    # `if not all(...)` or `if <other reason to pass through> or not all(...)`: on the false edge all(...) holds
-    if not (any(isinstance(t, ast.UnaryOp) and isinstance(t.op, ast.Not) and t.operand is quant for t in gtests) and gate.body and gate.body[-1] in pt_returns and not gate.orelse):
-        raise Unsupported(f"gate is not `if [... or] not all(...): return <pass-through>`: {short(gate.test, 60)}")
-    gen = quant.args[0]
-    if len(gen.generators) != 1 or gen.generators[0].ifs or not isinstance(gen.generators[0].target, ast.Name):
-        raise Unsupported("gate generator filters or nests its iteration")
-    var = gen.generators[0].target.id
-    root_expr = unparse(gen.generators[0].iter)
-    gsite = m.site(gate)
+    # (c) the gate: `if [.. or] not all(P(child) for child in root): return <pass-through>` or the same as a loop
+    # (`for child in root: if P1: continue; if P2: continue; return <pass-through>`); P may live in a one-expression helper
+    gate = _find_gate(cx, pt_returns)
+    var, root_expr, fedge, gsite = gate["var"], gate["root"], gate["fedge"], m.site(gate["node"])
     k = f"{fi.fq}|gate|quantifier"
-    if quant.func.id == "all":
-        rep.ok("C17.R1", k, gsite, f"all(... for {var} in {root_expr})")
+    if gate["quant"] == "all":
+        rep.ok("C17.R1", k, gsite, f"every {var} in {root_expr} ({gate['form']})")
     else:
         rep.violation("C17.R1", k, gsite, "conversion starts when *any* top-level element is convertible: the other elements are fed to the admonition conversion instead of passing through")
-    disj = gen.elt.values if isinstance(gen.elt, ast.BoolOp) and isinstance(gen.elt.op, ast.Or) else [gen.elt]
     seen_tags = {}
-    for d in disj:
-        conj = d.values if isinstance(d, ast.BoolOp) and isinstance(d.op, ast.And) else [d]
+    for conj in gate["disjuncts"]:
+        d = conj[0] if len(conj) == 1 else ast.BoolOp(op=ast.And(), values=list(conj))
         ext = tag = cls = None
         for c in conj:
             e_ = _ext_of_flag(cx, c)
@@ -486,7 +591,6 @@ def r1_pass_through(corpus: Corpus, rep: Report, tier: str):
         else:
             rep.ok("C17.R1", k, gsite, f"{ext} and {var}.name == {tag!r}" + (f" and {cls!r} in classes" if cls else ""))
     # non-pass-through returns and conversions lie behind the gate
-    fedge = ("F", gate)
     for r in other_returns:
         k = f"{fi.fq}|return|{short(r, 100)}|{_where(r)}"
         if cfg.dominates(fedge, r):
@@ -1458,40 +1562,70 @@ def _helper_verdict(fn: FunctionInfo):
     if not body or any(isinstance(x, ast.Name) and x.id == par and isinstance(x.ctx, ast.Store) for st in body for x in ast.walk(st)):
         return None
 
-    def unquoted_under(test):
-        """verdict for ``return par`` guarded by ``test``"""
-        if (isinstance(test, ast.Name) and test.id == par) or unparse(test) in (f"{par} is not None", f"isinstance({par}, str)", f"len({par}) > 0", f"{par} != ''"):
-            return ("lossy", "every non-empty value is returned unquoted")
-        rx = _fullmatch_regex(test, fn, par)
-        if rx is None:
-            return None
-        ok, why = _plain_scalar_safe(*rx)
-        if ok is None:
-            return None
-        return ("quoted", "") if ok else ("lossy", f"values matching {rx[0]!r} are passed on unquoted, but {why}")
+    from ..flow import facts
 
-    def value(v):
+    cfg = get_cfg(fn)
+
+    def single_def(name: str):
+        defs = [n for n in fn.local_nodes() if isinstance(n, ast.Assign) and len(n.targets) == 1 and isinstance(n.targets[0], ast.Name) and n.targets[0].id == name]
+        stores = [n for n in fn.local_nodes() if isinstance(n, ast.Name) and n.id == name and isinstance(n.ctx, ast.Store)]
+        return defs[0].value if len(defs) == 1 and len(stores) == 1 else None
+
+    def resolve(e):
+        """a local bound once (``m = RE.fullmatch(value)``, ``quoted = json.dumps(...)``) stands for its value"""
+        seen = 0
+        while isinstance(e, ast.Name) and e.id != par and seen < 3:
+            v = single_def(e.id)
+            if v is None:
+                break
+            e, seen = v, seen + 1
+        return e
+
+    def unquoted_under(fs):
+        """verdict for returning the parameter itself on a path where the facts ``fs`` hold"""
+        unknown = False
+        for t, pol in fs:
+            t = resolve(t)
+            if isinstance(t, ast.Compare) and len(t.ops) == 1 and isinstance(t.ops[0], (ast.Is, ast.IsNot)) and isinstance(t.comparators[0], ast.Constant) and t.comparators[0].value is None:
+                # `m is not None` / `m is None`
+                pol = pol if isinstance(t.ops[0], ast.IsNot) else not pol
+                t = resolve(t.left)
+            rx = _fullmatch_regex(t, fn, par)
+            if rx is None:
+                if any(isinstance(x, ast.Call) for x in ast.walk(t)):
+                    unknown = True  # some other test on the value: cannot tell what it admits
+                continue
+            if not pol:
+                continue  # the value did NOT match: says nothing in favour of returning it raw
+            ok, why = _plain_scalar_safe(*rx)
+            if ok is None:
+                return None
+            return ("quoted", "") if ok else ("lossy", f"values matching {rx[0]!r} are passed on unquoted, but {why}")
+        if unknown:
+            return None
+        return ("lossy", "the value is returned unquoted" + (" whenever it is non-empty" if fs else ""))
+
+    def value(v, fs):
+        v = resolve(v)
         if isinstance(v, ast.Name) and v.id == par:
-            return ("lossy", "the value is returned unquoted")
-        if isinstance(v, ast.IfExp) and isinstance(v.body, ast.Name) and v.body.id == par:
-            a = unquoted_under(v.test)
-            b_ = value(v.orelse)
+            return unquoted_under(fs)
+        if isinstance(v, ast.IfExp):
+            a = value(v.body, fs + facts(v.test, True))
+            b_ = value(v.orelse, fs + facts(v.test, False))
             if a is None or b_ is None:
                 return None
             return a if a[0] == "lossy" else b_
         return _json_quote_verdict(v, fn.module, par)
 
-    verdicts = []
-    for st in body[:-1]:
-        if isinstance(st, ast.If) and not st.orelse and len(st.body) == 1 and isinstance(st.body[0], ast.Return) and isinstance(st.body[0].value, ast.Name) and st.body[0].value.id == par:
-            verdicts.append(unquoted_under(st.test))
-        else:
-            return None
-    last = body[-1]
-    if not (isinstance(last, ast.Return) and last.value is not None):
+    rets = [n for n in fn.local_nodes() if isinstance(n, ast.Return)]
+    if not rets or any(r.value is None for r in rets) or any(p_ is not None and not isinstance(p_, ast.Return) for p_ in [x for x in cfg.pred.get("EXIT", []) if not isinstance(x, tuple)]):
         return None
-    verdicts.append(value(last.value))
-    if any(v is None for v in verdicts):
+    verdicts = []
+    for r in rets:
+        if not cfg.is_reachable(r):
+            continue
+        verdicts.append(value(r.value, cfg.guards(r)))
+    if not verdicts or any(v is None for v in verdicts):
         return None
     for v in verdicts:
         if v[0] == "lossy":
